@@ -693,7 +693,10 @@ def cmdSrandmember (db : Db) (args : List Bytes) (obs : Option (List Bytes)) : D
     | some _ => (db, wrongType)
   | [k, c] => match parseInt c with
     | none => (db, err)
-    | some c => match lookup db k with
+    | some c =>
+      -- Redis takes the count from -LONG_MAX..LONG_MAX: the one i64 whose negation does not exist is refused
+      if c < -9223372036854775807 then (db, err) else
+      match lookup db k with
       | none => if got.isEmpty then (db, bulks []) else (db, reject)
       | some ⟨.set xs, _⟩ =>
         if c ≥ 0 then
